@@ -37,3 +37,13 @@ VERUS = {
                  'derives on types holding opaque fields are dropped'],
     ),
 }
+
+NATIVE['n_c16_reloc'] = dict(
+    crate='cairo-lang-sierra-to-casm',
+    host='crates/cairo-lang-sierra-to-casm/src/relocations.rs',
+    harness='native/cairo-lang-sierra-to-casm/n_c16_reloc.rs',
+    props={'C16'},
+    bound='Relocation::apply over boundary offsets/immediates x 23 shapes x 2 map-free variants; relocate_instructions over 16 instruction patterns',
+    functions=[('crates/cairo-lang-sierra-to-casm/src/relocations.rs', 'impl Relocation', 'apply'),
+               ('crates/cairo-lang-sierra-to-casm/src/relocations.rs', None, 'relocate_instructions')],
+)
